@@ -52,7 +52,7 @@ package connlimiter
 //@   ensures  K(c) && c.current == old(c.current) - 1
 //@   ensures  c.isAccepting == (old(c.isAccepting) || c.current <= c.resume)
 //@   ensures  c.stop == old(c.stop) && c.resume == old(c.resume)
-//@   ensures  tok == old(tok) - 1 && mytok == old(mytok) - 1
+//@   ensures  tok == old(tok) - 1 && mytok == old(mytok) - 1 && leftAccepting == c.isAccepting
 
 // The lock of the shared condition variable protects the shared counter, the
 // listener's closed flag and the ghost total.  Its invariant gives the
